@@ -55,6 +55,7 @@ def main():
             results.append((name, "apply-failed"))
             continue
         t0 = time.time()
+        before = set(os.listdir(os.path.join(VERIF, "replays"))) if os.path.isdir(os.path.join(VERIF, "replays")) else set()
         try:
             cmd = [sys.executable, os.path.join(VERIF, "checks", "check.py"), prop]
             if runs:
@@ -64,6 +65,9 @@ def main():
             r = sh(cmd, env=env, cwd=VERIF)
         finally:
             sh(["git", "-C", REPO, "checkout", "--", "."])
+            if os.path.isdir(os.path.join(VERIF, "replays")):
+                for fn in set(os.listdir(os.path.join(VERIF, "replays"))) - before:
+                    os.remove(os.path.join(VERIF, "replays", fn))     # replay files of a mutant are not findings
         lines = [l for l in r.stdout.splitlines() if l.startswith("VIOLATION") or l.startswith("  rule=")]
         verdict = {0: "MISSED", 1: "caught", 2: "harness-error"}.get(r.returncode, "exit%d" % r.returncode)
         print("%-50s %-13s %5.0fs  %s" % (name, verdict, time.time() - t0, (lines[1].strip()[:150] if len(lines) > 1 else r.stdout.strip().splitlines()[-1][:150] if r.stdout.strip() else "")), flush=True)
